@@ -281,7 +281,9 @@ def case_pix(spec, workdir):
             PI.fromarray(arr).save(src)
         cli.entrypoint(["tile-study", "--placeholder-thumbnail", "--outdir", out, src])
     else:
-        pio = PyramidIO(out, default_format=fmt)
+        # a third of the plain API cases use the flat LXY naming scheme (tiles are located through the WTML's template anyway)
+        lxy = spec["seed"] % 3 == 1 and not spec.get("prior") and not spec.get("io_fault") and not spec.get("fault")
+        pio = PyramidIO(out, default_format=fmt, scheme="LXY") if lxy else PyramidIO(out, default_format=fmt)
         prior = spec.get("prior")
         if prior == "same_dir" and mode in ("RGBA", "F32", "F64", "F16x3"):
             # an earlier, fully defined image of the same size was tiled into this directory through the same entry point
